@@ -127,7 +127,7 @@ func mkBlock(height uint64, salt byte) *types.Block {
 	}
 }
 
-// newWorld builds the real blocks of the model: B1 < B2 in key (hash) order at height 1, B3 at height 2.
+// newWorld builds the real blocks of the model: B1 < B2 in key (hash) order at height 1, B3 < B4 at height 2.
 func newWorld() *world {
 	w := &world{blocks: map[string]*types.Block{}, name: map[bc.Hash]string{}}
 	a, b := mkBlock(1, 1), mkBlock(1, 2)
@@ -135,7 +135,12 @@ func newWorld() *world {
 	if bytes.Compare(ha.Bytes(), hb.Bytes()) > 0 {
 		a, b = b, a
 	}
-	w.blocks["B1"], w.blocks["B2"], w.blocks["B3"] = a, b, mkBlock(2, 3)
+	c, d := mkBlock(2, 3), mkBlock(2, 4)
+	hc, hd := c.Hash(), d.Hash()
+	if bytes.Compare(hc.Bytes(), hd.Bytes()) > 0 {
+		c, d = d, c
+	}
+	w.blocks["B1"], w.blocks["B2"], w.blocks["B3"], w.blocks["B4"] = a, b, c, d
 	for n, blk := range w.blocks {
 		w.name[blk.Hash()] = n
 	}
